@@ -245,5 +245,5 @@ def prop_locs(case):
     return Obs(hi, labels, checks=6)
 
 
-PARTS = [Part('order', prop_order, strategy=order_cases, quick=(8, 250), thorough=(16, 3000)),
-         Part('locs', prop_locs, strategy=locs_cases, quick=(4, 300), thorough=(8, 4000))]
+PARTS = [Part('order', prop_order, strategy=order_cases, quick=(8, 250), thorough=(16, 9000)),
+         Part('locs', prop_locs, strategy=locs_cases, quick=(4, 300), thorough=(8, 12000))]
